@@ -372,7 +372,8 @@ let vb a =
                              showc back; showc vback; (if bcf_special r then "special" else "plain"); show reused])
   | _ -> Some "HeaderErr"
 
-(* ---- `lz`: the lazy path (NV.Bcf.Lazy.lazy_read) under a generated header; header arguments as `vb` ---- *)
+(* ---- `lz`: the lazy path (NV.Bcf.Lazy.lazy_read_hdr) under a generated header; header arguments as `vb`;
+   a.(5) = the number of sample names of the header ---- *)
 let lz a =
   let idx i = if i = "-" then None else Some (nat_of_int (int_of_string i)) in
   let defs s = if s = "-" then [] else
@@ -388,7 +389,7 @@ let lz a =
     let v44 = (a.(0) = "4.4" || a.(0) = "4.5") in
     let h = { h_v44 = v44; h_infos = List.map hd infos; h_formats = List.map hd fmts;
               h_nsamples = nat_of_int (int_of_string a.(5)) } in
-    show_typed (lazy_read v44 strings contigs (ik_of h) (fk_of h) (bytes_of_hex a.(6)))
+    show_typed (lazy_read_hdr v44 strings contigs (ik_of h) (fk_of h) (z_of_int (int_of_string a.(5))) (bytes_of_hex a.(6)))
   | _ -> Some "HeaderErr"
 
 let handle kind a =
